@@ -105,7 +105,8 @@ class InlineTranslator:
         hatom = rule.head.atom
         max_arity: int = 0
         for elem in atom.elements:
-            max_arity = max(max_arity, len(elem.condition))
+            if elem != replace_elem:
+                max_arity = max(max_arity, len(elem.terms))
         rbody = [
             blit
             for blit in rule.body
